@@ -603,6 +603,9 @@ def write_replay(pid, payload):
     return path
 
 
+MAX_PER_KEY = 4
+
+
 def load_known():
     known, fixed = [], []
     p = os.path.join(VERIF, "KNOWN_FINDINGS.txt")
@@ -638,6 +641,11 @@ class Report:
                 if key not in [x[0] for x in self.known_hits]:
                     self.known_hits.append((key, k["text"]))
                 return False
+        # at most MAX_PER_KEY replay files (and VIOLATION lines) per failure class; the rest is counted
+        self.per_key = getattr(self, "per_key", {})
+        self.per_key[key] = self.per_key.get(key, 0) + 1
+        if self.per_key[key] > MAX_PER_KEY:
+            return True
         payload = dict(payload)
         payload.update(property=self.pid, key=key, what=what, found_failing_input=found_input)
         path = write_replay(self.pid, payload)
@@ -649,6 +657,8 @@ class Report:
                   coverage=self.coverage, assumptions=self.assumptions,
                   wall_s=round(time.time() - self.t0, 2), violations=len(self.violations),
                   known_findings=[k for k, _ in self.known_hits], repo=repo_state(), notes=self.notes)
+        if getattr(self, "per_key", None):
+            ev["violations_per_key"] = self.per_key
         os.makedirs(os.path.join(VERIF, "evidence"), exist_ok=True)
         # a replay is not a check of the property: its record goes to work/, evidence/ keeps the last quick/thorough run
         evpath = (os.path.join(WORK, "%s.replay-evidence.json" % self.pid) if getattr(self, "is_replay", False)
